@@ -270,7 +270,7 @@ pub fn run(cfg: &Cfg, rep: &mut Rep) {
         }
     }
     let mut r = Rng::new(cfg.seed, 0x2000 + sh as u64);
-    let nrand = cfg.budget(800_000);
+    let nrand = cfg.budget(4_000_000);
     for _ in 0..nrand {
         let s = gen::rand_scale(&mut r);
         match r.below(5) {
